@@ -29,3 +29,45 @@ pub fn vx_collect_para<P: Deb822LikeParagraph>(fields: Vec<(String, String)>) ->
     ensures r@ == pairs_view(fields@)
 { unimplemented!() }
 
+
+// ---- reading side (FromDeb822): R-derive-from targets -------------------------------------------------------------
+/// the text of `format!(F, K)` (one argument) ...
+pub uninterp spec fn fmt_msg1(f: Seq<char>, k: Seq<char>) -> Seq<char>;
+/// ... and "e is `format!(F, K, <the Display text of some error>)`" (two arguments)
+pub uninterp spec fn names_field(e: Seq<char>, f: Seq<char>, k: Seq<char>) -> bool;
+
+/// `O.ok_or_else(|| format!(F, K))`
+#[verifier::external_body]
+pub fn vx_ok_or_fmt<T>(o: Option<T>, f: &str, k: &str) -> (r: Result<T, String>)
+    ensures match o { Some(v) => r == Ok::<T, String>(v), None => r is Err && r->Err_0@ == fmt_msg1(f@, k@) }
+{ unimplemented!() }
+
+/// `R.map_err(|e| format!(F, K, e))`
+#[verifier::external_body]
+pub fn vx_map_err_fmt<T, E>(x: Result<T, E>, f: &str, k: &str) -> (r: Result<T, String>)
+    ensures match x { Ok(v) => r == Ok::<T, String>(v), Err(_) => r is Err && names_field(r->Err_0@, f@, k@) }
+{ unimplemented!() }
+
+/// `std::str::FromStr::from_str(&s)` with s: String (deref coercion to &str)
+pub fn vx_parse_string<T: VxFromStr>(s: &String) -> (r: Result<T, T::VxErr>)
+    ensures match r { Ok(v) => T::parse_rel(s@, v) && !T::parse_err(s@), Err(_) => T::parse_err(s@) }
+{
+    T::vx_from_str(s.as_str())
+}
+
+/// `String: FromStr` is the identity and never fails
+impl VxFromStr for String {
+    type VxErr = VxOpaqueErr;
+    open spec fn parse_rel(s: Seq<char>, v: String) -> bool { v@ == s }
+    open spec fn parse_err(s: Seq<char>) -> bool { false }
+    #[verifier::external_body]
+    fn vx_from_str(s: &str) -> (r: Result<String, VxOpaqueErr>) { unimplemented!() }
+}
+/// `bool: FromStr` accepts exactly "true" and "false"
+impl VxFromStr for bool {
+    type VxErr = VxOpaqueErr;
+    open spec fn parse_rel(s: Seq<char>, v: bool) -> bool { (v && s == "true"@) || (!v && s == "false"@) }
+    open spec fn parse_err(s: Seq<char>) -> bool { s != "true"@ && s != "false"@ }
+    #[verifier::external_body]
+    fn vx_from_str(s: &str) -> (r: Result<bool, VxOpaqueErr>) { unimplemented!() }
+}
